@@ -40,6 +40,7 @@ CORPUS = [
 
 NOTES = []
 STATS = {}
+TROUBLE = "M." + "readline trouble".encode().hex()
 
 
 def project(c, obs):
@@ -69,8 +70,8 @@ def project(c, obs):
         parts[2] = ",".join(procs)
         keep = []
         for it in parts[3].split(","):
-            if not it or it.startswith("M."):
-                continue
+            if not it or (it.startswith("M.") and it != TROUBLE):
+                continue            # `readline error` stays: the prompt came back while the shell did not own the terminal
             if it.startswith("R") and it.endswith(".Stopped"):
                 g = it.split(".")[1]
                 live = [states.get(str(m), "g") for m in members.get(g, [])]
